@@ -215,6 +215,11 @@ class MapToMolecule(Processor):
         # in this case the node belongs to a fragment for which there is a
         # multiresidue block
         if "from_itp" in meta_molecule.nodes[start_node]:
+            # the residue ids of a multi-residue block start at the
+            # residue id of the first residue of the molecule
+            offset = resid_dict[start_node] - min(nx.get_node_attributes(new_mol, "resid").values())
+            for mol_node in new_mol.nodes:
+                new_mol.nodes[mol_node]["resid"] += offset
             # add all nodes of that fragment to added_fragment nodes
             fragment_nodes = list(self.fragments[self.node_to_fragment[start_node]])
             self.added_fragment_nodes += fragment_nodes
